@@ -108,3 +108,36 @@ hs = [
 ]
 w("seed-chains", {"prog": ch, "histories": hs})
 print("ok")
+
+# ---------------------------------------------------------------- seed: a member predicate with two (and three) columns
+# pins /repo 9ee0d26 (`mapped(None\nNone)`: the module generated for an accepted program did not compile)
+tc = {"carriers": ["Ta"], "model": "Mm", "members": [{"name": "pb", "cols": [0, 0]}, {"name": "pc", "cols": [0, 0, 0]}],
+      "gpreds": [{"name": "qa", "cols": ["M", 0, 0]}, {"name": "qs", "cols": ["M"]}, {"name": "qb", "cols": [0, 0]}, {"name": "qm", "cols": ["M"]}],
+      "consts": [], "cmors": [],
+      "rules": [{"name": "ra", "prem": [[["ty", "M"], [0]], [["m", 0], [0, 1, 2]]], "concl": [[["g", 0], [0, 2, 1]]]},
+                {"name": "rb", "prem": [[["g", 1], [0]], [["m", 0], [0, 1, 2]]], "concl": [[["m", 0], [0, 2, 1]]]},
+                {"name": "rc", "prem": [[["ty", "M"], [0]], [["m", 0], [0, 1, 2]], [["m", 0], [0, 2, 3]]], "concl": [[["m", 1], [0, 1, 2, 3]]]},
+                # looks pb up by both columns: index selection chooses pb_*_order_1_2_0 (model element behind two columns;
+                # pins /repo 46f4f25: `(*<index>_own)?.get_mut(el1)` did not compile)
+                {"name": "rd", "prem": [[["g", 2], [1, 2]], [["ty", "M"], [0]], [["m", 0], [0, 1, 2]]], "concl": [[["g", 3], [0]]]}]}
+PB, PC = ["m", 0], ["m", 1]
+hs = [
+ # m0 -> m1 -> m2, x y z; pb(m0,x,y), pb(m1,y,z), qs(m2): everything before the only close
+ {"name": "two_columns_chain_early", "calls": [N("M")] * 3 + [N("F")] * 2 + [I(["dom"], [3, 0]), I(["cod"], [3, 1]), I(["dom"], [4, 1]), I(["cod"], [4, 2])] + [N(0)] * 3 +
+           [I(PB, [0, 5, 6]), I(PB, [1, 6, 7]), I(["g", 1], [2]), C]},
+ {"name": "two_columns_facts_after_morphisms_closed", "calls": [N("M")] * 3 + [N("F")] * 2 + [I(["dom"], [3, 0]), I(["cod"], [3, 1]), I(["dom"], [4, 1]), I(["cod"], [4, 2]), C] + [N(0)] * 3 +
+           [I(PB, [0, 5, 6]), C, I(PB, [1, 6, 7]), I(["g", 1], [2]), C, I(PC, [0, 5, 5, 7]), C]},
+ # the known finding with a two-column predicate
+ # qb(x, y) selects the tuple pb(., x, y) in every model that has it: own in m0, inherited in m1 and m2 (rule rd)
+ {"name": "two_columns_lookup_by_columns_early", "calls": [N("M")] * 3 + [N("F")] * 2 + [I(["dom"], [3, 0]), I(["cod"], [3, 1]), I(["dom"], [4, 1]), I(["cod"], [4, 2])] + [N(0)] * 3 +
+           [I(PB, [0, 5, 6]), I(PB, [2, 6, 7]), I(["g", 2], [5, 6]), C]},
+ {"name": "two_columns_lookup_by_columns_facts_between_closes", "calls": [N("M")] * 3 + [N("F")] * 2 + [I(["dom"], [3, 0]), I(["cod"], [3, 1]), I(["dom"], [4, 1]), I(["cod"], [4, 2]), C] + [N(0)] * 3 +
+           [I(["g", 2], [5, 6]), C, I(PB, [0, 5, 6]), C, I(PB, [1, 6, 7]), I(["g", 2], [6, 7]), C]},
+ # the inherited tuples are OLD when qb arrives: rule rd reads them through pb_old_order_1_2_0_all (the repaired path)
+ {"name": "two_columns_lookup_old_inherited", "calls": [N("M")] * 3 + [N("F")] * 2 + [I(["dom"], [3, 0]), I(["cod"], [3, 1]), I(["dom"], [4, 1]), I(["cod"], [4, 2])] + [N(0)] * 2 +
+           [I(PB, [0, 5, 6]), C, I(["g", 2], [5, 6]), C]},
+ {"name": "two_columns_lookup_by_columns_morphism_late", "calls": [N("M")] * 2 + [N(0)] * 2 + [I(PB, [0, 2, 3]), I(["g", 2], [2, 3]), C, N("F"), I(["dom"], [4, 0]), I(["cod"], [4, 1]), C]},
+ {"name": "two_columns_morphism_late", "calls": [N("M")] * 2 + [N(0)] * 2 + [I(PB, [0, 2, 3]), I(["g", 1], [1]), C, N("F"), I(["dom"], [4, 0]), I(["cod"], [4, 1]), C]},
+]
+w("seed-two-columns", {"prog": tc, "histories": hs})
+print("ok two columns")
